@@ -891,9 +891,12 @@ class Protocol:
 
     def prim_flush(self, ctx, owner, kw, configs):
         out = set()
+        if not hasattr(self, 'keep_flags_of'):
+            self.keep_flags_of = {}
         mol = ctx.cls is self.container
         for pend, facts in configs:
             kept_cats = set()
+            self.active_keep_flags = set()
             if mol:
                 for flag in ('keep_sssr', 'keep_components'):
                     v = kw.get(flag)
@@ -912,6 +915,7 @@ class Protocol:
                         val = True
                     if val:
                         kept_cats |= self.kept_reads[flag]
+                        self.active_keep_flags.add(flag)
             new = set()
             for o in pend:
                 if o[2] == owner and o[0] == 'FLUSH':
@@ -922,6 +926,8 @@ class Protocol:
                     if why is not None:
                         self.exempted[(ctx.stack[0], 'KEEP', o[1], o[3])] = why
                         continue
+                    # remember under which flags this survived: the reporting stage must not re-exempt it by a flag-blind table row
+                    self.keep_flags_of.setdefault(('KEEP', o[1], o[3]), set()).update(self.active_keep_flags)
                     new.add(k)
                 else:
                     new.add(o)
